@@ -221,6 +221,98 @@ theorem dropDir_sectors (id : Nat) (ds : List Dir) (r : List Dir × Nat) (hok : 
         · exact hok _ (by simp)
         · exact h3 e he
 
+/-! ### UDF directories -/
+
+theorem udirSectors_cons (u : UDir) (us : List UDir) : udirSectors (u :: us) = 1 + fidBlocks u.info + udirSectors us := by
+  simp [udirSectors]
+
+theorem updUDir_add (id : Nat) (f : UDir → Option (UDir × Nat))
+    (hf : ∀ u r, f u = some r → fidBlocks r.1.info = fidBlocks u.info + r.2 / BS ∧ ∃ k, r.2 = k * BS)
+    (us : List UDir) (r : List UDir × Nat) (h : updUDir id f us = some r) :
+    udirSectors r.1 = udirSectors us + r.2 / BS ∧ ∃ k, r.2 = k * BS := by
+  induction us generalizing r with
+  | nil => simp [updUDir] at h
+  | cons u us ih =>
+    simp only [updUDir] at h
+    split at h
+    · cases hfu : f u with
+      | none => simp [hfu] at h
+      | some x =>
+        simp [hfu] at h; subst h
+        obtain ⟨h1, h2⟩ := hf u x hfu
+        exact ⟨by simp only [udirSectors_cons]; omega, h2⟩
+    · cases hu : updUDir id f us with
+      | none => simp [hu] at h
+      | some x =>
+        simp [hu] at h; subst h
+        obtain ⟨h1, h2⟩ := ih x hu
+        exact ⟨by simp only [udirSectors_cons]; omega, h2⟩
+
+theorem updUDir_sub (id : Nat) (f : UDir → Option (UDir × Nat))
+    (hf : ∀ u r, f u = some r → fidBlocks r.1.info + r.2 / BS = fidBlocks u.info ∧ ∃ k, r.2 = k * BS)
+    (us : List UDir) (r : List UDir × Nat) (h : updUDir id f us = some r) :
+    udirSectors r.1 + r.2 / BS = udirSectors us ∧ ∃ k, r.2 = k * BS := by
+  induction us generalizing r with
+  | nil => simp [updUDir] at h
+  | cons u us ih =>
+    simp only [updUDir] at h
+    split at h
+    · cases hfu : f u with
+      | none => simp [hfu] at h
+      | some x =>
+        simp [hfu] at h; subst h
+        obtain ⟨h1, h2⟩ := hf u x hfu
+        exact ⟨by simp only [udirSectors_cons]; omega, h2⟩
+    · cases hu : updUDir id f us with
+      | none => simp [hu] at h
+      | some x =>
+        simp [hu] at h; subst h
+        obtain ⟨h1, h2⟩ := ih x hu
+        exact ⟨by simp only [udirSectors_cons]; omega, h2⟩
+
+theorem fidBlocks_mono (a b : Nat) (h : a ≤ b) : fidBlocks a ≤ fidBlocks b := by
+  unfold fidBlocks BS; omega
+
+theorem addFid_blocks (len : Nat) (u : UDir) (r : UDir × Nat) (h : addFid len u = some r) :
+    fidBlocks r.1.info = fidBlocks u.info + r.2 / BS ∧ ∃ k, r.2 = k * BS := by
+  simp only [addFid, Option.some.injEq] at h; subst h
+  have := fidBlocks_mono u.info (u.info + len) (by omega)
+  refine ⟨?_, _, rfl⟩
+  simp only [BS, Nat.mul_div_cancel _ (by decide : 0 < 2048)]; omega
+
+theorem rmFid_blocks (len : Nat) (u : UDir) (r : UDir × Nat) (h : rmFid len u = some r) :
+    fidBlocks r.1.info + r.2 / BS = fidBlocks u.info ∧ ∃ k, r.2 = k * BS := by
+  unfold rmFid at h
+  split at h
+  · simp only [Option.some.injEq] at h; subst h
+    have := fidBlocks_mono (u.info - len) u.info (by omega)
+    refine ⟨?_, _, rfl⟩
+    simp only [BS, Nat.mul_div_cancel _ (by decide : 0 < 2048)]; omega
+  · simp at h
+
+theorem dropUDir_sectors (id : Nat) (us : List UDir) (r : List UDir × Nat) (h : dropUDir id us = some r) :
+    udirSectors r.1 + 2 = udirSectors us ∧ r.2 = 2 * BS := by
+  induction us generalizing r with
+  | nil => simp [dropUDir] at h
+  | cons u us ih =>
+    simp only [dropUDir] at h
+    split at h
+    · split at h
+      · rename_i h1
+        simp only [Option.some.injEq] at h; subst h
+        exact ⟨by simp only [udirSectors_cons]; omega, rfl⟩
+      · simp at h
+    · cases hu : dropUDir id us with
+      | none => simp [hu] at h
+      | some x =>
+        simp [hu] at h; subst h
+        obtain ⟨h1, h2⟩ := ih x hu
+        exact ⟨by simp only [udirSectors_cons]; omega, h2⟩
+
+theorem udirSectors_append_new (us : List UDir) (id : Nat) :
+    udirSectors (us ++ [{ id := id, info := 0 }]) = udirSectors us + 1 := by
+  simp [udirSectors, fidBlocks, BS]
+
 /-! ### path tables inside the state -/
 
 theorem layoutEnd_setPt (s : State) (tree : Nat) (p : PathTable.PT) :
@@ -240,7 +332,7 @@ theorem ptOf_inv (s : State) (tree : Nat) (h0 : PathTable.Inv s.pt0) (h1 : PathT
   unfold ptOf; split <;> assumption
 
 /-- everything but the directories: unchanged by replacing the directory list -/
-def baseDirs (s : State) : Nat := s.fixed + 2 * s.pt0.extents + 2 * s.pt1.extents + s.ce + inoSectors s.inos
+def baseDirs (s : State) : Nat := s.fixed + 2 * s.pt0.extents + 2 * s.pt1.extents + s.ce + inoSectors s.inos + udirSectors s.udirs + s.ufree
 
 theorem layoutEnd_eq_dirs (s : State) : layoutEnd s = baseDirs s + dirSectors s.dirs := by
   simp [layoutEnd, baseDirs]; omega
@@ -305,6 +397,24 @@ theorem addPart_exact (s s' : State) (p : AddPart) (b : Nat) (hok : Ok s)
     simp only [addPart, Option.some.injEq, Prod.mk.injEq] at h
     obtain ⟨rfl, rfl⟩ := h
     exact ⟨1, by simp, by simp [layoutEnd]; omega, rfl, rfl, hd, h0, h1⟩
+  | ufid dir len =>
+    simp only [addPart] at h
+    cases hu : updUDir dir (addFid len) s.udirs with
+    | none => simp [hu] at h
+    | some r =>
+      simp [hu] at h
+      obtain ⟨rfl, rfl⟩ := h
+      obtain ⟨hs, k, hk⟩ := updUDir_add dir (addFid len) (addFid_blocks len) s.udirs r hu
+      have hk' : r.2 / BS = k := by rw [hk]; simp [BS]
+      exact ⟨k, hk, by simp [layoutEnd, hs, hk']; omega, rfl, rfl, hd, h0, h1⟩
+  | umkdir id =>
+    simp only [addPart, Option.some.injEq, Prod.mk.injEq] at h
+    obtain ⟨rfl, rfl⟩ := h
+    exact ⟨1, by simp, by simp [layoutEnd, udirSectors_append_new]; omega, rfl, rfl, hd, h0, h1⟩
+  | ufe =>
+    simp only [addPart, Option.some.injEq, Prod.mk.injEq] at h
+    obtain ⟨rfl, rfl⟩ := h
+    exact ⟨1, by simp, by simp [layoutEnd]; omega, rfl, rfl, hd, h0, h1⟩
 
 theorem rmPart_exact (s s' : State) (p : RmPart) (b : Nat) (hok : Ok s)
     (h : rmPart s p = some (s', b)) :
@@ -354,6 +464,32 @@ theorem rmPart_exact (s s' : State) (p : RmPart) (b : Nat) (hok : Ok s)
           exact ⟨k, by simp [hk], by omega, hf1, hf2, hok', hi0, hi1⟩
     · simp at h
   | ceBlock =>
+    simp only [rmPart] at h
+    split at h
+    · simp only [Option.some.injEq, Prod.mk.injEq] at h
+      obtain ⟨rfl, rfl⟩ := h
+      exact ⟨1, by simp, by simp [layoutEnd]; omega, rfl, rfl, hd, h0, h1⟩
+    · simp at h
+  | ufid dir len =>
+    simp only [rmPart] at h
+    cases hu : updUDir dir (rmFid len) s.udirs with
+    | none => simp [hu] at h
+    | some r =>
+      simp [hu] at h
+      obtain ⟨rfl, rfl⟩ := h
+      obtain ⟨hs, k, hk⟩ := updUDir_sub dir (rmFid len) (rmFid_blocks len) s.udirs r hu
+      have hk' : r.2 / BS = k := by rw [hk]; simp [BS]
+      exact ⟨k, hk, by simp [layoutEnd]; omega, rfl, rfl, hd, h0, h1⟩
+  | urmdir id =>
+    simp only [rmPart] at h
+    cases hu : dropUDir id s.udirs with
+    | none => simp [hu] at h
+    | some r =>
+      simp [hu] at h
+      obtain ⟨rfl, rfl⟩ := h
+      obtain ⟨hs, hb⟩ := dropUDir_sectors id s.udirs r hu
+      exact ⟨2, hb, by simp [layoutEnd]; omega, rfl, rfl, hd, h0, h1⟩
+  | ufe =>
     simp only [rmPart] at h
     split at h
     · simp only [Option.some.injEq, Prod.mk.injEq] at h
@@ -413,34 +549,86 @@ theorem rmParts_exact (s s' : State) (ps : List RmPart) (b : Nat) (hok : Ok s)
 
 /-! ### file contents -/
 
-theorem inoSectors_cons (i : Ino) (is : List Ino) : inoSectors (i :: is) = sectorsOf i.len + inoSectors is := by
+theorem inoSectors_cons (i : Ino) (is : List Ino) : inoSectors (i :: is) = sectorsOf i.len + feOf i + inoSectors is := by
   simp [inoSectors]
 
-theorem linkIno_sectors (id len n : Nat) (is : List Ino) :
-    inoSectors (linkIno id len n is).1 = inoSectors is + sectorsOf (linkIno id len n is).2 := by
+theorem sectorsOf_add_block (len : Nat) : sectorsOf (len + BS) = sectorsOf len + 1 := by
+  unfold sectorsOf BS; omega
+
+theorem feAdd_sectors (nu nudf : Nat) :
+    (if 0 < nudf + nu then 1 else 0) = (if 0 < nudf then 1 else 0) + sectorsOf (feAdd nu nudf) := by
+  cases nudf <;> cases nu <;> simp [feAdd, sectorsOf, BS]
+
+theorem feRel_sectors (nu nudf : Nat) (h : nu ≤ nudf) :
+    (if 0 < nudf - nu then 1 else 0) + sectorsOf (feRel nu nudf) = (if 0 < nudf then 1 else 0) := by
+  by_cases he : nu = nudf
+  · subst he
+    cases nu <;> simp [feRel, sectorsOf, BS]
+  · have h1 : 0 < nudf - nu := by omega
+    have h2 : 0 < nudf := by omega
+    simp [feRel, he, h1, h2, sectorsOf]
+
+theorem sectorsOf_len_fe (len nu nudf : Nat) (f : Nat) (hf : f = 0 ∨ f = BS) :
+    sectorsOf (len + f) = sectorsOf len + sectorsOf f := by
+  rcases hf with rfl | rfl
+  · unfold sectorsOf; omega
+  · unfold sectorsOf BS; omega
+
+theorem feAdd_cases (nu nudf : Nat) : feAdd nu nudf = 0 ∨ feAdd nu nudf = BS := by
+  unfold feAdd; split <;> simp
+
+theorem feRel_cases (nu nudf : Nat) : feRel nu nudf = 0 ∨ feRel nu nudf = BS := by
+  unfold feRel; split <;> simp
+
+theorem linkIno_sectors (id len n nu : Nat) (is : List Ino) :
+    inoSectors (linkIno id len n nu is).1 = inoSectors is + sectorsOf (linkIno id len n nu is).2 := by
   induction is with
-  | nil => simp [linkIno, inoSectors]
+  | nil =>
+    simp only [linkIno, inoSectors, List.map_cons, List.map_nil, List.sum_cons, List.sum_nil, feOf]
+    rw [sectorsOf_len_fe len nu 0 _ (feAdd_cases nu 0)]
+    have := feAdd_sectors nu 0
+    simp only [Nat.zero_add, Nat.lt_irrefl, if_false] at this
+    omega
   | cons i is ih =>
     simp only [linkIno]
-    split
-    · simp [inoSectors_cons, sectorsOf]
-    · simp only [inoSectors_cons]; omega
+    by_cases hid : i.id = id
+    · rw [if_pos hid]
+      simp only [inoSectors_cons, feOf]
+      have := feAdd_sectors nu i.nudf
+      omega
+    · rw [if_neg hid]
+      simp only [inoSectors_cons]; omega
 
-theorem unlinkIno_sectors (id n : Nat) (is : List Ino) (r : List Ino × Nat) (h : unlinkIno id n is = some r) :
+theorem unlinkIno_sectors (id n nu : Nat) (is : List Ino) (r : List Ino × Nat) (h : unlinkIno id n nu is = some r) :
     inoSectors r.1 + sectorsOf r.2 = inoSectors is := by
   induction is generalizing r with
   | nil => simp [unlinkIno] at h
   | cons i is ih =>
     simp only [unlinkIno] at h
-    split at h
-    · split at h
-      · simp only [Option.some.injEq] at h; subst h
-        simp [inoSectors_cons, sectorsOf]
-      · split at h
-        · simp only [Option.some.injEq] at h; subst h
-          simp only [inoSectors_cons]; omega
-        · simp at h
-    · cases hu : unlinkIno id n is with
+    by_cases hid : i.id = id
+    · rw [if_pos hid] at h
+      by_cases hc : nu ≤ i.nudf ∧ nu ≤ n
+      · rw [if_pos hc] at h
+        by_cases hl : n < i.links
+        · rw [if_pos hl] at h
+          simp only [Option.some.injEq] at h; subst h
+          simp only [inoSectors_cons, feOf]
+          have := feRel_sectors nu i.nudf hc.1
+          omega
+        · rw [if_neg hl] at h
+          by_cases he : n = i.links ∧ nu = i.nudf
+          · rw [if_pos he] at h
+            simp only [Option.some.injEq] at h; subst h
+            simp only [inoSectors_cons, feOf]
+            rw [sectorsOf_len_fe i.len nu i.nudf _ (feRel_cases nu i.nudf)]
+            have := feRel_sectors nu i.nudf hc.1
+            have hz : i.nudf - nu = 0 := by omega
+            simp only [hz, Nat.lt_irrefl, if_false] at this
+            omega
+          · rw [if_neg he] at h; simp at h
+      · rw [if_neg hc] at h; simp at h
+    · rw [if_neg hid] at h
+      cases hu : unlinkIno id n nu is with
       | none => simp [hu] at h
       | some x =>
         simp [hu] at h; subst h
@@ -450,10 +638,10 @@ theorem unlinkIno_sectors (id n : Nat) (is : List Ino) (r : List Ino × Nat) (h 
 /-! ### the invariant -/
 
 /-- everything but the file contents -/
-def baseInos (s : State) : Nat := s.fixed + 2 * s.pt0.extents + 2 * s.pt1.extents + dirSectors s.dirs + s.ce
+def baseInos (s : State) : Nat := s.fixed + 2 * s.pt0.extents + 2 * s.pt1.extents + dirSectors s.dirs + s.ce + udirSectors s.udirs + s.ufree
 
 theorem layoutEnd_eq_inos (s : State) : layoutEnd s = baseInos s + inoSectors s.inos := by
-  simp [layoutEnd, baseInos]
+  simp [layoutEnd, baseInos]; omega
 
 theorem Ok_of_fields (s t : State) (h : Ok s) (hd : t.dirs = s.dirs) (h0 : t.pt0 = s.pt0) (h1 : t.pt1 = s.pt1) : Ok t := by
   unfold Ok at *; rw [hd, h0, h1]; exact h
@@ -478,13 +666,13 @@ theorem step_inv (s s' : State) (op : Op) (hinv : Inv s) (h : step s op = some s
         rw [layoutEnd_eq_inos] at hl
         simp only [baseInos, addSpace, hb, sectorsOf_blocks'] at *; omega
       | some t =>
-        obtain ⟨id, len, n⟩ := t
+        obtain ⟨id, len, n, nu⟩ := t
         simp only at h
         split at h
         case isFalse => simp at h
         simp only [Option.some.injEq] at h; subst h
         refine ⟨?_, Ok_of_fields s1 _ hok1 rfl rfl rfl⟩
-        have hli := linkIno_sectors id len n s1.inos
+        have hli := linkIno_sectors id len n nu s1.inos
         rw [layoutEnd_eq_inos]
         rw [layoutEnd_eq_inos s1] at hl
         simp only [baseInos, addSpace, hb, sectorsOf_blocks] at *
@@ -505,15 +693,15 @@ theorem step_inv (s s' : State) (op : Op) (hinv : Inv s) (h : step s op = some s
         rw [layoutEnd_eq_inos s1] at hl
         simp only [baseInos, removeSpace, hb, sectorsOf_blocks'] at *; omega
       | some t =>
-        obtain ⟨id, n⟩ := t
+        obtain ⟨id, n, nu⟩ := t
         simp only at h
-        cases hu : unlinkIno id n s1.inos with
+        cases hu : unlinkIno id n nu s1.inos with
         | none => simp [hu] at h
         | some r =>
           obtain ⟨is, lb⟩ := r
           simp only [hu, Option.some.injEq] at h; subst h
           refine ⟨?_, Ok_of_fields s1 _ hok1 rfl rfl rfl⟩
-          have hui := unlinkIno_sectors id n s1.inos (is, lb) hu
+          have hui := unlinkIno_sectors id n nu s1.inos (is, lb) hu
           simp only at hui
           rw [layoutEnd_eq_inos]
           rw [layoutEnd_eq_inos s1] at hl
@@ -544,43 +732,53 @@ theorem path_tables_exact (s s' : State) (ops : List Op) (hinv : Inv s) (h : run
 
 /-! ### contents exist exactly as long as they are named (C07) -/
 
-theorem linkIno_named (id len n : Nat) (is : List Ino) (hn : 0 < n) (h : ∀ i ∈ is, 0 < i.links) :
-    ∀ i ∈ (linkIno id len n is).1, 0 < i.links := by
+theorem linkIno_named (id len n nu : Nat) (is : List Ino) (hn : 0 < n) (h : ∀ i ∈ is, 0 < i.links) :
+    ∀ i ∈ (linkIno id len n nu is).1, 0 < i.links := by
   induction is with
   | nil => intro i hi; simp [linkIno] at hi; subst hi; exact hn
   | cons j js ih =>
     simp only [linkIno]
-    split
-    · intro i hi
+    by_cases hid : j.id = id
+    · rw [if_pos hid]
+      intro i hi
       simp only [List.mem_cons] at hi
       rcases hi with rfl | hi
       · simp; have := h j (by simp); omega
       · exact h i (by simp [hi])
-    · intro i hi
+    · rw [if_neg hid]
+      intro i hi
       simp only [List.mem_cons] at hi
       rcases hi with rfl | hi
       · exact h _ (by simp)
       · exact ih (fun x hx => h x (by simp [hx])) i hi
 
-theorem unlinkIno_named (id n : Nat) (is : List Ino) (r : List Ino × Nat) (hu : unlinkIno id n is = some r)
+theorem unlinkIno_named (id n nu : Nat) (is : List Ino) (r : List Ino × Nat) (hu : unlinkIno id n nu is = some r)
     (h : ∀ i ∈ is, 0 < i.links) : ∀ i ∈ r.1, 0 < i.links := by
   induction is generalizing r with
   | nil => simp [unlinkIno] at hu
   | cons j js ih =>
     simp only [unlinkIno] at hu
-    split at hu
-    · split at hu
-      · simp only [Option.some.injEq] at hu; subst hu
-        intro i hi
-        simp only [List.mem_cons] at hi
-        rcases hi with rfl | hi
-        · simp; omega
-        · exact h i (by simp [hi])
-      · split at hu
-        · simp only [Option.some.injEq] at hu; subst hu
-          exact fun i hi => h i (by simp [hi])
-        · simp at hu
-    · cases hx : unlinkIno id n js with
+    by_cases hid : j.id = id
+    · rw [if_pos hid] at hu
+      by_cases hc : nu ≤ j.nudf ∧ nu ≤ n
+      · rw [if_pos hc] at hu
+        by_cases hl : n < j.links
+        · rw [if_pos hl] at hu
+          simp only [Option.some.injEq] at hu; subst hu
+          intro i hi
+          simp only [List.mem_cons] at hi
+          rcases hi with rfl | hi
+          · simp; omega
+          · exact h i (by simp [hi])
+        · rw [if_neg hl] at hu
+          by_cases he : n = j.links ∧ nu = j.nudf
+          · rw [if_pos he] at hu
+            simp only [Option.some.injEq] at hu; subst hu
+            exact fun i hi => h i (by simp [hi])
+          · rw [if_neg he] at hu; simp at hu
+      · rw [if_neg hc] at hu; simp at hu
+    · rw [if_neg hid] at hu
+      cases hx : unlinkIno id n nu js with
       | none => simp [hx] at hu
       | some x =>
         simp [hx] at hu; subst hu
@@ -603,14 +801,14 @@ theorem step_named (s s' : State) (op : Op) (hok : Ok s) (hn : Named s) (h : ste
       cases ino with
       | none => simp only [Option.some.injEq] at h; subst h; unfold Named; simp only; rw [hi1]; exact hn
       | some t =>
-        obtain ⟨id, len, n⟩ := t
+        obtain ⟨id, len, n, nu⟩ := t
         simp only at h
         split at h
         case isFalse => simp at h
         rename_i hpos
         simp only [Option.some.injEq] at h; subst h
         unfold Named; simp only
-        exact linkIno_named id len n s1.inos hpos (by rw [hi1]; exact hn)
+        exact linkIno_named id len n nu s1.inos hpos.1 (by rw [hi1]; exact hn)
   | rm parts ino =>
     simp only [step] at h
     cases hp : rmParts s parts with
@@ -622,15 +820,15 @@ theorem step_named (s s' : State) (op : Op) (hok : Ok s) (hn : Named s) (h : ste
       cases ino with
       | none => simp only [Option.some.injEq] at h; subst h; unfold Named; simp only; rw [hi1]; exact hn
       | some t =>
-        obtain ⟨id, n⟩ := t
+        obtain ⟨id, n, nu⟩ := t
         simp only at h
-        cases hu : unlinkIno id n s1.inos with
+        cases hu : unlinkIno id n nu s1.inos with
         | none => simp [hu] at h
         | some r =>
           obtain ⟨is, lb⟩ := r
           simp only [hu, Option.some.injEq] at h; subst h
           unfold Named; simp only
-          exact unlinkIno_named id n s1.inos (is, lb) hu (by rw [hi1]; exact hn)
+          exact unlinkIno_named id n nu s1.inos (is, lb) hu (by rw [hi1]; exact hn)
 
 /-- **released at zero**: after any history every stored content still has a name — the last `unlink` removed it from the
 store and gave its sectors back (`space_exact` counts exactly the stored contents) -/
@@ -646,16 +844,18 @@ theorem contents_named (s s' : State) (ops : List Op) (hinv : Inv s) (hn : Named
       simp only [hs] at h
       exact ih s1 (step_inv s s1 op hinv hs) (step_named s s1 op hinv.2 hn hs) h
 
-/-- removing the last name of a content releases exactly its sectors; removing one of several releases nothing -/
-theorem unlink_releases_iff (id n : Nat) (i : Ino) (is : List Ino) (hid : i.id = id) :
-    unlinkIno id n (i :: is) = (if n < i.links then some ({ i with links := i.links - n } :: is, 0)
-                                else if n = i.links then some (is, i.len) else none) := by
-  simp [unlinkIno, hid]
+/-- removing the last name of a content releases exactly its bytes (and its File Entry sector with the last UDF name);
+removing one of several names releases at most the File Entry sector -/
+theorem unlink_releases_iff (id n nu : Nat) (i : Ino) (is : List Ino) (hid : i.id = id) (hc : nu ≤ i.nudf ∧ nu ≤ n) :
+    unlinkIno id n nu (i :: is) =
+      (if n < i.links then some ({ i with links := i.links - n, nudf := i.nudf - nu } :: is, feRel nu i.nudf)
+       else if n = i.links ∧ nu = i.nudf then some (is, i.len + feRel nu i.nudf) else none) := by
+  simp only [unlinkIno, if_pos hid, if_pos hc]
 
 /-! ### the sequential layout of a reachable state -/
 
 theorem layoutCounts_sum (s : State) : (layoutCounts s).sum = layoutEnd s := by
-  simp [layoutCounts, layoutEnd, dirSectors, inoSectors]; omega
+  simp [layoutCounts, layoutEnd, dirSectors, inoSectors, udirSectors]; omega
 
 /-- **the objects of a reachable state, placed one after the other from sector 0, are pairwise disjoint, lie inside the
 declared size, and the last one ends exactly there** -/
@@ -699,9 +899,9 @@ theorem init0_inv : Inv init0 := by
 /-- a concrete history: a directory, a file of 5000 bytes named twice, one name removed, the file removed, the directory
 removed — the size goes 24 → 25 → 28 → 28 → 25 → 24 -/
 example : (run init0 [.add [.insert 0 2 38, .mkdir 0 1 10 [34, 34]] none,
-                      .add [.insert 0 2 44, .insert 1 2 44] (some (7, 5000, 2)),
-                      .rm [.remove 1 2] (some (7, 1)),
-                      .rm [.remove 0 2] (some (7, 1)),
+                      .add [.insert 0 2 44, .insert 1 2 44] (some (7, 5000, 2, 0)),
+                      .rm [.remove 1 2] (some (7, 1, 0)),
+                      .rm [.remove 0 2] (some (7, 1, 0)),
                       .rm [.remove 0 2, .rmdir 0 1 10] none]).map (·.space) = some 24 := by decide
 
 /-- without the single ceiling division per call the sizes would drift: two contents of 1 byte in one call would be
